@@ -105,7 +105,18 @@ class Ctx:
         env = dict(GOENV, VERIF_SEED=str(self.seed), VERIF_TIER=self.tier)
         if extra_env:
             env.update(extra_env)
-        p = sh([self.exe, sub] + list(args), cwd=cwd or REPO, env=env, timeout=timeout)
+        try:
+            p = sh([self.exe, sub] + list(args), cwd=cwd or REPO, env=env, timeout=timeout)
+        except subprocess.TimeoutExpired as e:
+            # the implementation (or the harness) did not finish: not a verdict by itself; recorded as a broken
+            # obligation so that the run ends with a VIOLATION ... no-failing-input-found unless an oracle line says more
+            class P: returncode = 124; stdout = (e.stdout or b"").decode("utf-8", "replace") if isinstance(e.stdout, bytes) else (e.stdout or ""); stderr = "harness timeout"
+            p = P()
+            self.oblige("harness:%s terminates within %ss" % (sub, timeout), False, "timeout")
+            self.broken.append("harness %s did not terminate within %s s (the implementation may be spinning)" % (sub, timeout))
+            allow_fail = True
+        if p.returncode == 3:
+            allow_fail = True   # watchdog fired: the oracle line emitted before exit carries the failing input
         if p.returncode != 0 and not allow_fail:
             raise Abort("harness %s failed (%d):\n%s" % (sub, p.returncode, p.stderr[-6000:]))
         lines = []
